@@ -476,6 +476,9 @@ func envelopeRetainedBytes(env *Envelope) int64 {
 // dropOldestQueuedLocked evicts the oldest queued item and returns it (nil if
 // nothing could be evicted).
 func (s *MemoryStore) dropOldestQueuedLocked() *Envelope {
+	// "Oldest" is the smallest received_at, as in the SQLite and Postgres
+	// backends; insertion order only breaks ties.
+	var oldest *Envelope
 	for _, id := range s.order {
 		env := s.items[id]
 		if env == nil {
@@ -484,12 +487,14 @@ func (s *MemoryStore) dropOldestQueuedLocked() *Envelope {
 		if env.State != StateQueued {
 			continue
 		}
-		if !s.evictLocked(id, memoryEvictionReasonDropOldest) {
-			return nil
+		if oldest == nil || env.ReceivedAt.Before(oldest.ReceivedAt) {
+			oldest = env
 		}
-		return env
 	}
-	return nil
+	if oldest == nil || !s.evictLocked(oldest.ID, memoryEvictionReasonDropOldest) {
+		return nil
+	}
+	return oldest
 }
 
 // restoreDroppedLocked puts back items evicted by dropOldestQueuedLocked
